@@ -15,12 +15,16 @@ CFG_AXES = {
         "min_freq": [0.1, 0.25],
         "min_freq_mod": [None, 0.125, 0.25, 0],
         "output_dtype": ["float", "str"],
+        "verbose": [False, True],
+        "index": ["range", "offset"],
     },
     "continuous": {
         "max_n_mod": [3, 2, 4, 6],
         "min_freq": [0.1, 0.25],
         "min_freq_mod": [None, 0.125, 0.25, 0],
         "output_dtype": ["float", "str"],
+        "verbose": [False, True],
+        "index": ["range", "offset"],
     },
 }
 CFG_AXES["multiclass"] = CFG_AXES["binary"]
@@ -153,6 +157,10 @@ def cases_for_table(carver, kind, cells, tier, seed, d_cfg, dev_level, nan_cells
         if not valid_target(carver, dcells):
             continue
         out.append(mk(None, dev, default))
+        if name == "same" and not lean:
+            c = dict(default)
+            c["index"] = "offset"
+            out.append(mk(None, dev, c))
     # dev + missing values together (same dev, with / without missing values on dev)
     if nan_cells and not lean:
         nc = nan_cells[0]
